@@ -340,6 +340,8 @@ class Engine:
                 return [(v.d[name], s)]
             raise Unsupported(f"{v!r} has no {name!r}")
         if isinstance(v, ClassV):
+            if name in ("__name__", "__qualname__"):
+                return [(v.name, s)]
             if name in v.attrs:
                 return [(v.attrs[name], s)]
             for c in self.mro(v.name):
@@ -637,8 +639,22 @@ class Engine:
                     else:
                         rec(i + 1, s2)
                     continue
-                # try a pure merge: the rest evaluates without forking or raising
-                for side, s3 in self.split(s2, t):
+                sides = self.split(s2, t)
+                if len(sides) == 2 and i == len(e.values) - 2:
+                    # pure merge: `x or 1`, `a and b` over scalars without side effects become an if-then-else term
+                    go = [s3 for side, s3 in sides if side != stop_on][0]
+                    m = self._mark()
+                    r = self.ev(e.values[i + 1], go)
+                    if len(r) == 1 and r[0][1] is go and m == self._mark() and self._mergeable(v, r[0][0]):
+                        a, b = (v, r[0][0]) if stop_on else (r[0][0], v)
+                        if not isinstance(a, (bool, tuple)) and not (is_sym(a) and z3.is_bool(a)):
+                            a, b = as_arith(a), as_arith(b)
+                        outs.append((If(t, a, b), s2))
+                    else:
+                        outs.append((v, [s3 for side, s3 in sides if side == stop_on][0]))
+                        outs.extend(r)
+                    continue
+                for side, s3 in sides:
                     if side == stop_on:
                         outs.append((v, s3))
                     else:
@@ -782,12 +798,41 @@ class Engine:
             return And(to_z3(lo) <= x, x < to_z3(hi))
         raise Unsupported(f"`in` on {container!r}")
 
+    def _mark(self):
+        return (self.nfork, len(self.rstack[-1]), len(self.obligations))
+
+    @staticmethod
+    def _mergeable(a, b):
+        def num(v):
+            return (is_sym(v) and (z3.is_int(v) or z3.is_real(v))) or (isinstance(v, (int, float)) and not isinstance(v, bool))
+
+        def boo(v):
+            return (is_sym(v) and z3.is_bool(v)) or isinstance(v, bool)
+        if isinstance(a, tuple) and isinstance(b, tuple) and len(a) == len(b):
+            return all(Engine._mergeable(x, y) for x, y in zip(a, b))
+        return (num(a) and num(b)) or (boo(a) and boo(b))
+
     def ev_IfExp(self, e, st):
         res = []
         for c, s in self.ev(e.test, st):
             t = self.truth_st(c, s)
-            for side, s2 in self.split(s, t):
-                res += self.ev(e.body if side else e.orelse, s2)
+            sides = self.split(s, t)
+            if len(sides) == 2:
+                got = {}
+                pure = True
+                for side, s2 in sides:
+                    m = self._mark()
+                    r = self.ev(e.body if side else e.orelse, s2)
+                    pure = pure and len(r) == 1 and r[0][1] is s2 and m == self._mark()
+                    got[side] = r
+                if pure and self._mergeable(got[True][0][0], got[False][0][0]):
+                    res.append((If(t, as_arith(got[True][0][0]) if not isinstance(got[True][0][0], (bool, tuple)) else got[True][0][0],
+                                   as_arith(got[False][0][0]) if not isinstance(got[False][0][0], (bool, tuple)) else got[False][0][0]), s))
+                else:
+                    res += got[True] + got[False]
+            else:
+                for side, s2 in sides:
+                    res += self.ev(e.body if side else e.orelse, s2)
         return res
 
     def ev_NamedExpr(self, e, st):
@@ -1539,7 +1584,7 @@ def _b_isinstance(eng, s, args, kw):
     ts = t if isinstance(t, tuple) else (t,)
     r = False
     for tt in ts:
-        name = tt.name if isinstance(tt, (ClassV, Fn)) else tt
+        name = tt.name if isinstance(tt, (ClassV, Fn, Namespace)) else tt
         r = Or(r, eng.isinstance1(v, name, s))
     return [(r, s)]
 
@@ -1693,7 +1738,10 @@ def _b_round(eng, s, args, kw):
     if z3.is_int(x):
         return [(x, s)]
     r = _ROUND(x)
-    ax = z3.And(z3.ToReal(r) - x <= z3.RealVal("1/2"), x - z3.ToReal(r) <= z3.RealVal("1/2"))
+    half = z3.RealVal("1/2")
+    # nearest integer; ties left unconstrained (covers Python's ties-to-even; keeps the queries linear and stable --
+    # with the exact `ties to even` clause z3 went `unknown` on some aspect obligations)
+    ax = z3.And(z3.ToReal(r) - x <= half, x - z3.ToReal(r) <= half)
     if not any(ax.eq(a) for a in eng.round_axioms):
         eng.round_axioms.append(ax)
     s.pc.append(ax)
@@ -1758,6 +1806,12 @@ def _b_type(eng, s, args, kw):
         return [(ClassV(v.cls), s)]
     if isinstance(v, Rec):
         return [(ClassV(v.name), s)]
+    if v is None:
+        return [(ClassV("NoneType"), s)]
+    if is_sym(v):
+        return [(ClassV("bool" if z3.is_bool(v) else "int" if z3.is_int(v) else "float" if z3.is_real(v) else "str"), s)]
+    if isinstance(v, (bool, int, float, str, bytes, tuple)):
+        return [(ClassV(type(v).__name__), s)]
     raise Unsupported(f"type({v!r})")
 
 
